@@ -335,10 +335,10 @@ def f1_effects(ctx):
 
 
 def run(ctx):
-    helpers(ctx)
-    a1_saved(ctx)
-    s1_offsets(ctx)
-    f1_effects(ctx)
+    ctx.part('C11.A1', helpers)
+    ctx.part('C11.A1', a1_saved)
+    ctx.part('C11.S1', s1_offsets)
+    ctx.part('C11.F1', f1_effects)
 
 
 LEVEL_TEXT = ('Static walks of the Merger: every per-spike file is concat(inputs in order)[one stable spike_order]; the id offsets are applied in '
